@@ -944,6 +944,9 @@ package builder
 // a code predicate answers for the labels in scope NOW, however the result is obtained (C06: from the memo table
 // it is the answer for the labels that were in scope when the entry was made: known finding F4)
 //@   ensures [answer C06] (is(expr, "*andCodeExpr") ==> ok == PredAns(expr, mapdom(p.vstack[len(p.vstack)-1]), mapval(p.vstack[len(p.vstack)-1]), p.pt.position)) && (is(expr, "*notCodeExpr") ==> ok == !PredAns(expr, mapdom(p.vstack[len(p.vstack)-1]), mapval(p.vstack[len(p.vstack)-1]), p.pt.position))
+// a throw is decided by the handlers in force NOW, however the result is obtained (C14; from the memo table it is
+// the outcome under the handlers that were in force when the entry was made: known finding F19)
+//@   ensures [throw-now C14] is(expr, "*throwExpr") ==> TH(old(p.recoveryStack), as(expr, "*throwExpr").label, p.data, old(p.pt.offset), ok, p.pt.offset, val)
 //@   ensures [stacks C02 C14] Stacks(p)
 //@   ensures [depth C06] DepthBal(p)
 //@   ensures [invert C12] p.maxFailInvertExpected == old(p.maxFailInvertExpected)
@@ -969,6 +972,9 @@ package builder
 // a code predicate answers for the labels in scope NOW, however the result is obtained (C06: from the memo table
 // it is the answer for the labels that were in scope when the entry was made: known finding F4)
 //@   ensures [answer C06] (is(expr, "*andCodeExpr") ==> ok == PredAns(expr, mapdom(p.vstack[len(p.vstack)-1]), mapval(p.vstack[len(p.vstack)-1]), p.pt.position)) && (is(expr, "*notCodeExpr") ==> ok == !PredAns(expr, mapdom(p.vstack[len(p.vstack)-1]), mapval(p.vstack[len(p.vstack)-1]), p.pt.position))
+// a throw is decided by the handlers in force NOW, however the result is obtained (C14; from the memo table it is
+// the outcome under the handlers that were in force when the entry was made: known finding F19)
+//@   ensures [throw-now C14] is(expr, "*throwExpr") ==> TH(old(p.recoveryStack), as(expr, "*throwExpr").label, p.data, old(p.pt.offset), ok, p.pt.offset, val)
 //@   ensures [stacks C02 C14] Stacks(p)
 //@   ensures [depth C06] DepthBal(p)
 //@   ensures [invert C12] p.maxFailInvertExpected == old(p.maxFailInvertExpected)
@@ -1340,5 +1346,8 @@ package builder
 //@   loop#1 invariant [mono] Budget(p)
 //@   loop#1 invariant [stacks C02 C14] Stacks(p) && p.maxFailInvertExpected == old(p.maxFailInvertExpected)
 //@   loop#1 decreases [C16] i + 1
+// handlers are in force only while their guarded expression is being evaluated (C14): while the recovery expression
+// of the i-th handler runs, that handler and the ones above it are out of force -- they are not: known finding F18
+//@   before parser.parseExprWrap assert [handlers-out-of-force C14] len(p.recoveryStack) <= i
 //@   safety C11
 //@   frame C18
